@@ -342,6 +342,29 @@ func checkC11(c C11Case, r *Rec) *Violation {
 		}
 	}
 
+	// two different variables under one two-operand call (a fast operator when FastEvaluation is on)
+	for a := 0; a+1 < len(c.Probe); a++ {
+		i, j := c.Probe[a], c.Probe[a+1]
+		if i >= len(c.Names) || j >= len(c.Names) || i == j {
+			continue
+		}
+		src := "(c_tuple " + c.Names[i] + " " + c.Names[j] + ")"
+		for _, mask := range []int{MaskFast, 15, 0} {
+			for k, o := range allOpts {
+				cc.CompileOptions[o] = mask&(1<<k) != 0
+			}
+			e, co := SafeCompile(cc, src)
+			if co.Panic != nil || co.Err != nil {
+				return Violf("C11: %s does not compile: %v\n%s", src, co, describe())
+			}
+			o := Safe(func() (eval.Value, error) { return e.Eval(ctx) })
+			got, ok := o.Val.([]eval.Value)
+			if o.Panic != nil || o.Err != nil || !ok || len(got) != 2 || !equalNormalised(got[0], want[i]) || !equalNormalised(got[1], want[j]) {
+				return Violf("C11: %s (config %s) evaluates to %v; %q is bound to %v and %q to %v\n%s", src, maskName(mask), o, c.Names[i], want[i], c.Names[j], want[j], describe())
+			}
+		}
+	}
+
 	// evidence
 	r.Class("fetcher:" + fetcher)
 	special := false
